@@ -65,6 +65,9 @@ pub fn run_cases(
             if out.foreign > 0 {
                 cov.bump("cases_stopped_by_oracle_of_other_property");
             }
+            if !out.violations.is_empty() {
+                cov.bump("violating_cases");
+            }
             if !out.violations.is_empty() && finds.len() < 4 {
                 // deterministic: run again with the log switched on
                 let full = run(&rt, idx, true);
@@ -167,6 +170,9 @@ fn tl_c04_enum(args: &Args, rep: &mut Report, max_hooks: usize, max_idle: usize)
                         }
                         if out.foreign > 0 {
                             cov.bump("cases_stopped_by_oracle_of_other_property");
+                        }
+                        if !out.violations.is_empty() {
+                            cov.bump("violating_cases");
                         }
                         if !out.violations.is_empty() && finds.len() < 4 {
                             let (full, _) = tl::c04::run_path(&rt, c, &prefix, suspend_ok, true);
@@ -403,6 +409,9 @@ fn th_sweep_managed(args: &Args, rep: &mut Report, prop: &'static str) {
                 if out.foreign > 0 {
                     cov.bump("cases_stopped_by_oracle_of_other_property");
                 }
+                if !out.violations.is_empty() {
+                    cov.bump("violating_cases");
+                }
                 if let Some(v) = out.violations.first() {
                     if finds.len() < 6 {
                         finds.push(Finding { v: v.clone(), sig: format!("{}/th_sweep/{}/{}", prop, v.oracle, sc.sig()), replay: out.desc.clone() });
@@ -460,6 +469,9 @@ fn th_chaos_managed(args: &Args, rep: &mut Report, prop: &'static str, runs: u64
             cov.add("schedule_points_hit", out.points as u64);
             if out.foreign > 0 {
                 cov.bump("cases_stopped_by_oracle_of_other_property");
+            }
+            if !out.violations.is_empty() {
+                cov.bump("violating_cases");
             }
             if let Some(v) = out.violations.first() {
                 if finds.len() < 4 {
@@ -529,6 +541,9 @@ fn th_sweep_unmanaged(args: &Args, rep: &mut Report, prop: &'static str) {
                 if out.foreign > 0 {
                     cov.bump("cases_stopped_by_oracle_of_other_property");
                 }
+                if !out.violations.is_empty() {
+                    cov.bump("violating_cases");
+                }
                 if let Some(v) = out.violations.first() {
                     if finds.len() < 6 {
                         finds.push(Finding { v: v.clone(), sig: format!("{}/uth_sweep/{}/{}", prop, v.oracle, sc.sig()), replay: out.desc.clone() });
@@ -577,6 +592,9 @@ fn th_chaos_unmanaged(args: &Args, rep: &mut Report, prop: &'static str, runs: u
             cov.add("schedule_points_hit", out.points as u64);
             if out.foreign > 0 {
                 cov.bump("cases_stopped_by_oracle_of_other_property");
+            }
+            if !out.violations.is_empty() {
+                cov.bump("violating_cases");
             }
             if let Some(v) = out.violations.first() {
                 if finds.len() < 4 {
@@ -698,6 +716,9 @@ fn th_race(args: &Args, rep: &mut Report, prop: &'static str, rounds: u64, unman
             let _ = cov.distinct.insert(out.hash);
             let _ = cov.nontrivial.insert(out.hash);
             let _ = cov.schedules.insert(out.hash);
+            if !out.violations.is_empty() {
+                cov.bump("violating_cases");
+            }
             if let Some(v) = out.violations.first() {
                 cov.bump("rounds_with_violation");
                 if finds.len() < 4 {
